@@ -15,6 +15,7 @@ A *driver* is an object with
     violations             list of (signature, what) found so far on this path
     stats                  dict name->count (vacuity guards), merged by the engine
 """
+import gc
 import hashlib
 import multiprocessing as mp
 import os
@@ -28,8 +29,24 @@ _FACTORY = None
 _OPTS = {}
 
 
+def _canon(o):
+    """0 / 0.0 / -0.0 and float noise below 1e-6 must not separate equal states."""
+    if isinstance(o, bool) or o is None or isinstance(o, str):
+        return o
+    if isinstance(o, (int, float)):
+        v = round(float(o), 6)
+        return 0.0 if v == 0 else v
+    if isinstance(o, (tuple, list)):
+        return tuple(_canon(x) for x in o)
+    if isinstance(o, dict):
+        return tuple(sorted((repr(k), _canon(v)) for k, v in o.items()))
+    if isinstance(o, (set, frozenset)):
+        return tuple(sorted(repr(_canon(x)) for x in o))
+    return repr(o)
+
+
 def fp_hash(obj):
-    return hashlib.blake2b(repr(obj).encode(), digest_size=12).hexdigest()
+    return hashlib.blake2b(repr(_canon(obj)).encode(), digest_size=12).hexdigest()
 
 
 # ------------------------------------------------------------------------------------------
@@ -99,6 +116,9 @@ def _expand(arg):
     choices = list(d.enabled())
     out = []
     use_fork = _OPTS.get("fork", True)
+    if use_fork and len(choices) > 1:
+        # children must not touch (copy-on-write) every object of the parent when their collector runs
+        gc.freeze()
     for i, c in enumerate(choices):
         last = i == len(choices) - 1
         if last:
@@ -140,6 +160,7 @@ def _expand(arg):
             res = _child_result(d2, c)
             d2.close()
         out.append(res)
+    gc.unfreeze()
     try:
         d.close()
     except Exception:       # noqa
